@@ -46,6 +46,14 @@ func NewVerifPipe(a *Agent) *VerifPipe {
 // VerifSetHistoricWindow: the value Agent.HistoricWindow() returns (the aggregator reads its window from its built-in agent)
 func VerifSetHistoricWindow(a *Agent, hw uint32) { a.historicWindow.Store(hw) }
 
+// VerifShardHistoricWindow: the window shard 0's senders use (Shard.config.HistoricWindow, what checkOutOfWindow gets)
+func VerifShardHistoricWindow(a *Agent) uint32 {
+	s := a.Shards[0]
+	s.mu.Lock()
+	defer s.mu.Unlock()
+	return uint32(s.config.HistoricWindow)
+}
+
 func (v *VerifPipe) DiskOn() bool { return v.A.diskBucketCache != nil }
 
 func (v *VerifPipe) SetConfig(saveImmediately bool, diskOK bool, historicWindow int) {
